@@ -182,29 +182,36 @@ def classify(pattern, flags=0):
             if ok and not cls.contains(run_char):
                 cls.name = 'F2class'
                 return F2(run_char, cls, start_lits, at_end)
-    # F3: (^|/)X(?=/|$)
+    # F3: (^|/)X(?=/|$)   -- alternatives in either order; X single-character matchers, possibly as {n} repeats
     if len(items) >= 3 and items[0][0] == C.SUBPATTERN and items[-1][0] == C.ASSERT:
         g, addf, delf, inner = items[0][1]
         if g == 1 and len(inner) == 1 and inner[0][0] == C.BRANCH:
             alts = [list(a) for a in inner[0][1][1]]
-            if len(alts) == 2 and alts[0] == [(C.AT, C.AT_BEGINNING)] and len(alts[1]) == 1 and alts[1][0][0] == C.LITERAL:
-                sep = alts[1][0][1]
-                direction, look = items[-1][1]
-                look = list(look)
-                ok = direction == 1 and len(look) == 1 and look[0][0] == C.BRANCH
-                if ok:
-                    lalts = [list(a) for a in look[0][1][1]]
-                    ok = (len(lalts) == 2 and lalts[0] == [(C.LITERAL, sep)] and lalts[1] == [(C.AT, C.AT_END)])
-                if ok:
-                    comps = []
-                    for it in items[1:-1]:
-                        k = class_of_item(*it)
-                        if k is None:
-                            ok = False
-                            break
-                        comps.append(k)
-                    if ok and comps:
-                        return F3(sep, comps)
+            begin = [(C.AT, C.AT_BEGINNING)]
+            if len(alts) == 2 and begin in alts:
+                other = alts[1] if alts[0] == begin else alts[0]
+                if len(other) == 1 and other[0][0] == C.LITERAL:
+                    sep = other[0][1]
+                    direction, look = items[-1][1]
+                    look = list(look)
+                    ok = direction == 1 and len(look) == 1 and look[0][0] == C.BRANCH
+                    if ok:
+                        lalts = [list(a) for a in look[0][1][1]]
+                        ok = (len(lalts) == 2 and [(C.LITERAL, sep)] in lalts and [(C.AT, C.AT_END)] in lalts)
+                    if ok:
+                        comps = []
+                        for it in items[1:-1]:
+                            if it[0] == C.MAX_REPEAT and it[1][0] == it[1][1] and len(it[1][2]) == 1:
+                                k = class_of_item(*it[1][2][0])
+                                reps = it[1][0]
+                            else:
+                                k, reps = class_of_item(*it), 1
+                            if k is None or reps > 4:
+                                ok = False
+                                break
+                            comps += [k] * reps
+                        if ok and comps:
+                            return F3(sep, comps)
     return None
 
 
@@ -227,6 +234,15 @@ def parse_template(tmpl):
                 buf += '\\'
                 i += 2
                 continue
+            if tmpl[i + 1:i + 3] == 'g<' and '>' in tmpl[i + 3:]:
+                j = tmpl.index('>', i + 3)
+                if tmpl[i + 3:j].isdigit():
+                    if buf:
+                        out.append(('lit', buf))
+                        buf = ''
+                    out.append(('group', int(tmpl[i + 3:j])))
+                    i = j + 1
+                    continue
             return None
         buf += ch
         i += 1
